@@ -12,8 +12,17 @@ from . import bootstrap
 from .core import CaseTimeout, CovProbe, Result, short_tb
 
 
+def _safe_stdio():
+    for st in (sys.stdout, sys.stderr):
+        try:
+            st.reconfigure(errors="backslashreplace")  # witnesses may contain lone surrogates
+        except Exception:
+            pass
+
+
 def main(argv):
     modname, specfile, outfile = argv
+    _safe_stdio()
     faulthandler.enable()
     bootstrap(track_locks=(modname == "c18"))
     mod = importlib.import_module(f"vmon.props.{modname}")
